@@ -37,6 +37,8 @@ def model(c, invs, twins, pairs=False, tag=""):
 
 
 def describe(e):
+    if e.get("ev") == "LateChange":
+        return "%s (%s, debug=%s, headers %s): before %s after %s" % (e["what"], e["m"], e["dbg"], json.dumps(e["req"])[:150], json.dumps(e["before"])[:200], json.dumps(e["after"])[:200])
     if e.get("ev") == "Hang":
         return "%s (%s, debug=%s, headers %s)" % (e["what"], e["m"], e["dbg"], json.dumps(e["req"])[:200])
     return "%s %s Origin=%r ACRM=%r ACRH=%r ACRPN=%r debug=%s -> status %s headers %s" % (
